@@ -2,6 +2,7 @@ import KanidmModel.Proto
 import KanidmModel.StoreCodec
 /-! Driver for C12 (`km_c12`). One request line → one reply line.
 
+* `pairs` / `names <pair>` / `dbnames <pair>` → comma separated table / variant names
 * `tag <pair> <MemVariant>`            → `ok <DbVariant> <serde> <MemVariant'|reject>`
 * `dispatch <ValueSetStruct>`          → `ok <DbCtor> <serde> <Struct'|reject> <syntax id|none>`
 * `dbctor <serde>`                     → `ok <DbCtor> <Struct|reject>`
@@ -86,6 +87,15 @@ def single (v : VS) : Option Nat :=
 
 def handle (line : String) : String :=
   match tokens line with
+  | ["pairs"] => ",".intercalate (allPairs.map (·.name))
+  | ["names", pn] =>
+    match findPair pn with
+    | some p => ",".intercalate p.memNames
+    | none => "bad-pair"
+  | ["dbnames", pn] =>
+    match findPair pn with
+    | some p => ",".intercalate p.dbNames
+    | none => "bad-pair"
   | ["tag", pn, mem] =>
     match findPair pn with
     | some p => handleTag p mem
